@@ -26,10 +26,7 @@ Proof. exact gen_try_refines. Qed.
 
 Theorem C10_generated_iff : forall k ENV A B c, wf_cont k A c -> gen_pre k A c ->
   ((exists c', gen_try k ENV A B c = Ret (Ok c')) <-> cast_ok k A B c).
-Proof.
-  intros k ENV A B c Hwf Hpre. rewrite (gen_try_refines k ENV A B c Hpre).
-  rewrite <- (cast_iff k A B c Hwf). split; intros [c' H]; exists c'; [inversion H; reflexivity | rewrite H; reflexivity].
-Qed.
+Proof. exact gen_try_iff. Qed.
 
 Example C10_gen_pre_nonvacuous : gen_pre KVec (mkTy 4 4) (mkCont 4096 3 6) /\ gen_pre KVec (mkTy 0 1) (mkCont 1 5 18446744073709551615).
 Proof. split; vm_compute; reflexivity. Qed.
